@@ -21,7 +21,7 @@ ASSUMPTIONS = ["reference model start-time rule (max of job ready and machine fr
 def generate(seed, tier):
     rng = stream(seed, "c02")
     big = tier == "thorough" and rng.random() < 0.15
-    spec = gen_instance(rng, huge=0.03, max_jobs=6 if big else 4, max_machines=5 if big else 4, max_ops=6 if big else 4)
+    spec = gen_instance(rng, huge=0.03, sparse_ids=0.03, large=0.008, max_jobs=6 if big else 4, max_machines=5 if big else 4, max_ops=6 if big else 4)
     names, style = gen_filter(rng, None, p_none=0.5)
     faulty = rng.random() < 0.5
     ops = gen_dispatch_ops(rng, n_ops(spec), p_query=0.08, p_invalid=0.1 if faulty else 0.0,
